@@ -243,14 +243,21 @@ func (d *driver) runOnce(seed uint64, tape *Tape, replay bool) *Run {
 		defer func() {
 			if p := recover(); p != nil {
 				msg := fmt.Sprint(p)
+				r.mu.Lock()
+				if !r.ended {
+					// the bubble ended without the scenario returning (all goroutines blocked)
+					r.ended = true
+					r.SimTime = r.lastEl
+				}
+				r.mu.Unlock()
 				if strings.Contains(msg, "deadlock") || strings.Contains(msg, "blocked goroutines") {
 					if os.Getenv("VERIF_DEBUG_LEAK") != "" {
 						buf := make([]byte, 1<<20)
 						n := runtime.Stack(buf, true)
 						fmt.Fprintf(os.Stderr, "LEAK DUMP:\n%s\n", buf[:n])
 					}
-					if d.cfg.LeakSig != "" {
-						r.Fail(d.cfg.LeakSig, "goroutines of the bubble are still blocked after the scenario ended: %s", msg)
+					if sig := r.leakSig(d.cfg.LeakSig); sig != "" {
+						r.Fail(sig, "goroutines of the bubble are still blocked after the scenario ended: %s", msg)
 					} else {
 						r.Fail("harness/bubble-leak", "%s", msg)
 					}
@@ -482,53 +489,86 @@ func Main(t *testing.T, cfg Config) {
 		return false
 	}
 
-	ok := true
-	if cfg.EnumN != nil && os.Getenv("VERIF_NOENUM") == "" {
-		n := cfg.EnumN(tier)
-		res.EnumTotal = n
-		done := true
-		for i := shard; i < n; i += nshards {
-			if over() {
-				done = false
-				break
-			}
-			seed := Mix(base, cfg.Prop+"/enum", uint64(i))
-			r := d.runOnce(seed, NewGenTape(seed, cfg.EnumAt(tier, i)), false)
-			if !account(r, true, i) {
-				ok = false
-				done = false
-				break
-			}
-		}
-		res.EnumComplete = done
+	// The exploration is a resumable sequence of single runs (enumerated cases, then depth-first
+	// schedule/history enumeration, then random runs) executed in batches, each batch inside its
+	// own sub-test: testing.T accumulates clean-ups (cryptotest.SetGlobalRandom, synctest.Test)
+	// per run, and millions of runs on one T exhaust memory.
+	noEnum := os.Getenv("VERIF_NOENUM") != ""
+	phase := 0
+	enumN, enumI, enumDone := 0, shard, true
+	if cfg.EnumN != nil && !noEnum {
+		enumN = cfg.EnumN(tier)
+		res.EnumTotal = enumN
 	}
-	if ok && cfg.ExhaustRoots != nil && os.Getenv("VERIF_NOENUM") == "" {
-		roots := cfg.ExhaustRoots(tier)
+	var roots [][]int
+	if cfg.ExhaustRoots != nil && !noEnum {
+		roots = cfg.ExhaustRoots(tier)
 		if shard == 0 {
 			res.ExhaustRoots = len(roots)
 		}
-		maxLeaves := cfg.ExhaustMax[tier]
-		if maxLeaves == 0 {
-			maxLeaves = 20000
-		}
-	rootLoop:
-		for ri, root := range roots {
-			if ri%nshards != shard {
-				continue
+	}
+	maxLeaves := cfg.ExhaustMax[tier]
+	if maxLeaves == 0 {
+		maxLeaves = 20000
+	}
+	ri, leaves := -1, 0
+	var prefix []int
+	randN := envInt("VERIF_RUNS", cfg.Runs[tier])
+	randI := shard
+	nextRoot := func() bool {
+		for ri++; ri < len(roots); ri++ {
+			if ri%nshards == shard {
+				prefix = append([]int(nil), roots[ri]...)
+				leaves = 0
+				return true
 			}
-			prefix := append([]int(nil), root...)
-			leaves := 0
-			for {
-				if over() || leaves >= maxLeaves {
-					break
+		}
+		return false
+	}
+	// work performs one run; false = nothing left or exploration must stop
+	work := func() bool {
+		for {
+			switch phase {
+			case 0: // enumerated cases
+				if enumI >= enumN {
+					res.EnumComplete = enumDone && enumN > 0
+					phase = 1
+					if !nextRoot() {
+						phase = 2
+					}
+					continue
 				}
+				if over() {
+					enumDone = false
+					res.EnumComplete = false
+					return false
+				}
+				i := enumI
+				enumI += nshards
+				seed := Mix(base, cfg.Prop+"/enum", uint64(i))
+				r := d.runOnce(seed, NewGenTape(seed, cfg.EnumAt(tier, i)), false)
+				if !account(r, true, i) {
+					res.EnumComplete = false
+					return false
+				}
+				return true
+			case 1: // depth-first enumeration below the current root
+				if over() {
+					return false
+				}
+				if leaves >= maxLeaves {
+					if !nextRoot() {
+						phase = 2
+					}
+					continue
+				}
+				root := roots[ri]
 				seed := Mix(base, cfg.Prop+"/exhaust", uint64(ri))
 				r := d.runOnce(seed, NewEnumTape(prefix), false)
 				leaves++
 				res.ExhaustRuns++
 				if !account(r, true, ri) {
-					ok = false
-					break rootLoop
+					return false
 				}
 				rec := r.Tape.Rec
 				i := len(rec) - 1
@@ -539,28 +579,39 @@ func Main(t *testing.T, cfg Config) {
 				}
 				if i < len(root) {
 					res.ExhaustDone++
-					break
+					if !nextRoot() {
+						phase = 2
+					}
+					return true
 				}
 				prefix = prefix[:0]
 				for j := 0; j < i; j++ {
 					prefix = append(prefix, rec[j].V)
 				}
 				prefix = append(prefix, rec[i].V+1)
+				return true
+			default: // random runs
+				if randI >= randN || over() {
+					return false
+				}
+				i := randI
+				randI += nshards
+				seed := Mix(base, cfg.Prop, uint64(i))
+				r := d.runOnce(seed, NewGenTape(seed, nil), false)
+				return account(r, false, i)
 			}
 		}
 	}
-	if ok {
-		n := envInt("VERIF_RUNS", cfg.Runs[tier])
-		for i := shard; i < n; i += nshards {
-			if over() {
-				break
+	const batch = 20000
+	for more := true; more; {
+		t.Run("batch", func(st *testing.T) {
+			d.t = st
+			for k := 0; k < batch && more; k++ {
+				more = work()
 			}
-			seed := Mix(base, cfg.Prop, uint64(i))
-			r := d.runOnce(seed, NewGenTape(seed, nil), false)
-			if !account(r, false, i) {
-				break
-			}
-		}
+		})
+		d.t = t
+		runtime.GC()
 	}
 	res.Distinct = len(distinct)
 	if out != "" {
